@@ -37,7 +37,8 @@ Print Assumptions C12_rm_replaceable.
 
 (* FALSE for x86_cases_rm_bad (known findings, DESIGN 7.25): kmov*, movd/movq/vmovd/vmovq/vmovw with a GP operand, three-register
    vpermil*/vpermpd/q/vpsll*/vpsra*/vpsrl*. *)
-Theorem C12_rm_replaceable_refuted : forall c, In c x86_cases_rm_bad -> case_rm_ok x86_tables c = false.
+Theorem C12_rm_replaceable_refuted : forall c, In c x86_cases_rm_bad ->
+  case_rm_ok x86_tables c && case_rmfeat_ok x86_tables x86_feat_consts c = false.
 Proof. exact x86_rm_replaceable_refuted. Qed.
 Print Assumptions C12_rm_replaceable_refuted.
 
@@ -50,3 +51,12 @@ Theorem C12_features_cover_db : forall c, In c (x86_cases_ok ++ x86_cases_rm_bad
   (c_featcheck c = false -> case_feat_ok x86_tables x86_feat_consts c = false).
 Proof. exact x86_features_cover_db. Qed.
 Print Assumptions C12_features_cover_db.
+
+(* rm_feature: for every register-only tuple, an operand reported kRegMem with size s has a database form with an s-byte memory operand at
+   that position whose extensions are all among the features query_features reports for the register tuple plus the reported rm_feature
+   (so the allocator's test "rm_feature available" is sufficient before it rewrites the operand into memory). *)
+Theorem C12_rm_feature_covers_db : forall c, In c x86_cases_ok -> c_rmcheck c = true ->
+  exists out feats, query_rw_info x86_tables (c_q c) = Some out /\ query_features x86_tables x86_feat_consts (c_q c) = Some feats /\
+                    rm_feature_claims_true x86_feat_consts c out feats.
+Proof. exact x86_rm_feature_covers_db. Qed.
+Print Assumptions C12_rm_feature_covers_db.
